@@ -426,7 +426,10 @@ func RunReplay(p *Prop, v *Violation) (fail *Failure) {
 		}
 	}
 	x := w.run(v.Choices)
-	if len(x.choices) != len(v.Choices) {
+	// a hang or a crash is recorded with the choices known when it happened (the
+	// prefix being explored), the execution itself would have made more
+	partial := v.Failure.Kind == "hang" || v.Failure.Kind == "crash"
+	if len(x.choices) != len(v.Choices) && !(partial && len(x.choices) > len(v.Choices)) {
 		panic(fmt.Sprintf("HARNESS-ERROR replay divergence: %d choices made, %d recorded", len(x.choices), len(v.Choices)))
 	}
 	for i, pt := range x.points {
